@@ -4,7 +4,7 @@ Class E with the SCHEDULE as the variable of interest: for every project shape o
 processing order (the package's own module first, then its sub-modules in any order) is applied by reordering
 System.unprocessed_modules before process(); the canonical dump of the model must equal the dump under the default order.
 """
-from lib.hx import harness, pick, pickb, done, tier, PART, note, known
+from lib.hx import harness, pick, pickb, done, tier, PART, note, known, sample
 
 PROPERTY = "C06"
 LEVEL = "exploration"
@@ -58,6 +58,7 @@ def check_schedule(kw, si, shadow=False):
     scheds = T.schedules(sources)
     if si >= len(scheds) or si == 0:
         return True
+    sample(shape=kw, shadow=shadow, default_order=scheds[0], order=scheds[si], sources={k: v[0] for k, v in sources.items()})
     try:
         s0 = PJ.build(sources, schedule=T.scheduler(scheds[0]))
         s1 = PJ.build(sources, schedule=T.scheduler(scheds[si]))
